@@ -208,4 +208,33 @@ def trun (s : TState) : List TOp → TState × List (Option (Option Int))
     let (s2, rs) := trun s1 os
     (s2, r :: rs)
 
+
+/-! ### several Settings objects in one process (every client, schema and transport owns one; `_tls` is created per object) -/
+
+abbrev Obj := Nat
+
+/-- an event addressed to a Settings object -/
+abbrev OEvent := Obj × Event
+
+abbrev World := Obj → MState
+
+def wstep (w : World) (oe : OEvent) : World × Option Val :=
+  let r := mstep (w oe.1) oe.2
+  (upd w oe.1 r.1, r.2)
+
+/-- run a history of addressed events; every output is tagged with the object that produced it -/
+def wrun (w : World) : List OEvent → World × List (Obj × Option Val)
+  | [] => (w, [])
+  | oe :: h =>
+    let r := wstep w oe
+    let r2 := wrun r.1 h
+    (r2.1, (oe.1, r.2) :: r2.2)
+
+/-- the events of a history addressed to `o` -/
+def eventsOf (o : Obj) (h : List OEvent) : History := (h.filter fun oe => oe.1 == o).map (·.2)
+
+/-- the outputs of a run produced by `o` -/
+def outputsOf (o : Obj) (outs : List (Obj × Option Val)) : List (Option Val) := (outs.filter fun p => p.1 == o).map (·.2)
+
+
 end Zeep.Settings
